@@ -51,6 +51,8 @@ def prop_result(ctx, case):
     # the window holds unrelated records of the same thread (an interrupt, a page fault, undecoded ids), sometimes hundreds
     nn = case.get('nested', 0)
     nested = [SC.junk(0x33, seed + j, j % 7) for j in range(nn)]
+    if nn % 2:       # ... among them the undecoded names of the call's own family (BSC_mmap_extended_info for BSC_mmap)
+        nested += [SC.ev(0x33, n, 0, seed, 8 + i) for i, n in enumerate(EV.family_lookalikes(name))]
     txt = guard(render, name, a, e, nested=nested)
     sc = TP.split_call(txt)
     if sc is None:
